@@ -3,7 +3,8 @@
 spec:   spec/MediaTypesOps.tla  score tuple, Quality, BestIdx + the documented rule stated declaratively
         spec/MediaTypes.tla     negotiation cases as a state machine + invariants (C11a)
         spec/Handlers.tla       handler mapping + memoising resolver + mutation operations (C11b)
-        spec/HandlersError.tla  the same mapping histories observed at error rendering (OfferedFollowsMapping) + MC_ / Trace
+        spec/HandlersError.tla  the same mapping histories observed at error rendering (OfferedFollowsMapping, TypeAndBodyAgree:
+                                the body is rendered by the handler the matching rule designates, +json/+xml fall-back) + MC_ / Trace
         spec/MC_MediaTypes.tla, spec/MC_Handlers.tla          bounded instances / behaviour export
         spec/MediaTypesTrace.tla, spec/HandlersTrace.tla      trace judges
 legs:   M  exhaustive TLC checks of both designs (operational fold == documented rule; memo table
@@ -31,7 +32,20 @@ META = {
                   'falcon.media.Handlers (through get_media / render_body / get_param_as_json and whole requests on both '
                   'stacks) are compared with TLC-computed outcomes exhaustively at the small bound and judged by TLC on '
                   'seeded random headers and mutation histories beyond it.',
-    'level_note': 'Bounded: exhaustive for headers <= 2 ranges over a 2-3 type / 2-3 subtype / 2 parameter-name vocabulary, '
+    'level_note': 'q position: every header of <= 2 ranges over 3 type forms x 0-2 parameters x q absent/0/0.5004 written first / '
+                  'middle / last among the parameters (48 ranges, 2352 headers) x 6 candidates that carry / lack / differ in each parameter, '
+                  'model-checked (QPositionIrrelevant; the design "q ends the parameters" is refuted) and replayed on quality / client_accepts / '
+                  'best_match / client_prefers; positions also in the simulated and random headers and in content types handed to the resolver. '
+                  'Mapping keys with parameters next to bare keys: exhaustive histories over {json, json;p=1, application/*} (plus */* and a second '
+                  'type in simulated / random histories) resolved for content types AS WRITTEN (literal, otherwise spelled: blanks, quoting, '
+                  'parameter case / order, empty trailing parameter; extra / differing parameters; q = 0 and 0.5 at every position): P:first demands '
+                  'the first registered key of maximal positive quality whenever no key is literally equal; where a literally equal key exists the '
+                  'shortcut must stay inside the keys of maximal positive quality (which of them: model detail, see assumptions). '
+                  'Error bodies: mappings holding application/xml; charset=utf-8, application/json; charset=utf-8, application/*, */* next to the '
+                  'literal keys, Accept headers reaching application/json, application/xml, text/xml and the +json / +xml fall-back (subtype only; '
+                  'the substring test on parameters is not modelled), handler output H<id> vs built-in XML / framework JSON; the wrong design '
+                  '"lookup by literal key" is refuted by TLC.  Type/subtype letter case and other spellings of */* as a content type stay outside. '
+                  'Bounded: exhaustive for headers <= 2 ranges over a 2-3 type / 2-3 subtype / 2 parameter-name vocabulary, '
                   'simulation <= 3 ranges x 3 candidates, random <= 5 ranges x 5 candidates; handler histories exhaustive to '
                   'depth 3 (quick) / 4 (thorough) over 3 keys x 2 handlers x 2 objects, random to 30 operations. '
                   'Type/subtype case-insensitivity, commas inside quoted parameter values and q values that are not '
@@ -43,6 +57,7 @@ META = {
 import itertools
 import json
 import os
+import random
 
 from engine import bytesrc, drivers
 from engine.core import MachineryError, digest
@@ -51,14 +66,23 @@ from engine.core import MachineryError, digest
 # abstract syntax -> strings (the harness' only job besides driving and comparing)
 # ---------------------------------------------------------------------------------------------
 TYPES = {'a': 'application', 'b': 'text', 'c': 'image', 'e': 'x-app', '*': '*'}
-SUBS = {'x': 'json', 'y': 'plain', 'z': 'png', 'w': 'vnd.v1+json', 'm': 'xml', '*': '*'}
+SUBS = {'x': 'json', 'y': 'plain', 'z': 'png', 'w': 'vnd.v1+json', 'v': 'vnd.v1+xml', 'm': 'xml', '*': '*'}
 SEMI = [';', ';', '; ', '; ', ' ;', ' ; ', ';\t', ';  ']
 COMMA = [',', ',', ', ', ', ', ' ,', ' , ', ',\t']
 BADQ = ['abc', '2', '1.5', '-0.5', '1.001', '', 'inf', 'nan', '0.5.5', '-1', '1.0.0', '0x1', 'q']
 NOSLASH_BLANK = ['', ' ']
 NOSLASH = ['application', 'json', 'text;q=0.5', 'application;p=1', 'applicationjson', 'text\\plain']
-NOTYPE = {'t': '-', 's': '-', 'pm': []}
 NOKEY = {'t': '', 's': '', 'pm': []}
+
+
+def W(m, q=-1, qp=None, lit=True):
+    """a content type AS WRITTEN (Handlers!WCT): media type + q (millionths, -1 absent) at position qp + literal spelling"""
+    return {'t': m['t'], 's': m['s'], 'pm': [dict(n=p['n'], v=p['v']) for p in m['pm']], 'q': q,
+            'qp': len(m['pm']) if qp is None else qp, 'lit': bool(lit and q == -1)}
+
+
+NOTYPE = W({'t': '-', 's': '-', 'pm': []})
+NOCT = W(NOKEY)
 
 
 def canon(m):
@@ -80,7 +104,8 @@ def render_q(q, rng):
     return '0.' + base + '0' * rng.randint(0, 7 - len(base))
 
 
-def render_params(pm, rng, q=None, vary=True):
+def render_params(pm, rng, q=None, vary=True, qp=None):
+    """qp: the number of parameters written before q (None = q last), as the abstract range says"""
     items = list(pm)
     if vary and len(items) > 1 and rng.random() < 0.4:
         rng.shuffle(items)
@@ -90,14 +115,14 @@ def render_params(pm, rng, q=None, vary=True):
         v = '"%s"' % p['v'] if vary and rng.random() < 0.25 else p['v']
         parts.append(n + '=' + v)
     if q is not None:
-        parts.append(('Q' if vary and rng.random() < 0.1 else 'q') + '=' + q)
+        parts.insert(len(parts) if qp is None else qp, ('Q' if vary and rng.random() < 0.1 else 'q') + '=' + q)
     return ''.join((rng.choice(SEMI) if vary else '; ') + x for x in parts)
 
 
 def render_range(r, rng, allow_blank):
     if r['t'] == '!':
         return rng.choice(NOSLASH_BLANK + NOSLASH) if allow_blank else rng.choice(NOSLASH)
-    return TYPES[r['t']] + '/' + SUBS[r['s']] + render_params(r['pm'], rng, render_q(r['q'], rng))
+    return TYPES[r['t']] + '/' + SUBS[r['s']] + render_params(r['pm'], rng, render_q(r['q'], rng), qp=r.get('qp'))
 
 
 def render_header(hdr, rng):
@@ -105,6 +130,25 @@ def render_header(hdr, rng):
     OWS, quoted parameter values, parameter order and name case, q with 0-4 digits)."""
     s = rng.choice(COMMA).join(render_range(r, rng, len(hdr) > 1) for r in hdr)
     return s
+
+
+def render_ct(ct, rng, blanks=False):
+    """the string a written content type stands for: its canonical spelling when lit, otherwise some OTHER spelling of
+    the same media type (no blank after ';', blanks before it, quoted / re-cased / reordered parameters, empty trailing
+    parameter, surrounding blanks where the caller can deliver them), with the q parameter at position qp"""
+    base = canon(ct)
+    if ct['lit'] and ct['q'] == -1:
+        return base
+    q = render_q(ct['q'], rng) if ct['q'] != -1 else None
+    for _ in range(20):
+        s = TYPES[ct['t']] + '/' + SUBS[ct['s']] + render_params(ct['pm'], rng, q, qp=ct['qp'] if q is not None else None)
+        if rng.random() < 0.25:
+            s += rng.choice((';', ' ;', '; '))
+        if blanks and rng.random() < 0.3:
+            s = rng.choice((' ' + s, s + ' ', '  ' + s + '\t'))
+        if s != base:
+            return s
+    return base.replace('; ', ';') if ct['pm'] else base + ';'
 
 
 def render_type(m, rng, vary=True):
@@ -246,13 +290,15 @@ class HRun:
     """Real falcon.media.Handlers objects driven through their public mapping API; resolutions
     are observed where falcon itself resolves (get_media, render_body, get_param_as_json)."""
 
-    def __init__(self, init_map):
+    def __init__(self, init_map, rng=None):
         import falcon
         import falcon.asgi
         from falcon.media import Handlers
         self.falcon = falcon
         self.hobjs = {}
         self.abst = {}
+        self.rng = rng or random.Random(0)
+        self.spelled = None
         self.objs = [Handlers(dict((self.key(e['k']), self.hobj(e['h'])) for e in init_map))]
         self.apps = {}
 
@@ -276,7 +322,8 @@ class HRun:
     def resolve(self, o, ct, d, r, route):
         falcon = self.falcon
         H = self.objs[o - 1]
-        cts = None if ct['t'] == '-' else canon(ct)
+        cts = None if ct['t'] == '-' else render_ct(ct, self.rng, blanks=route in ('wresp', 'aresp'))
+        self.spelled = cts
         ds = canon(d)
         body = b'{"probe": 1}'
         hs = [] if cts is None else [('Content-Type', cts)]
@@ -361,7 +408,7 @@ class HRun:
         """c: abstract call [op, o, k, h, pairs, ct, d, r].  Returns the logged event."""
         op, o = c['op'], c['o']
         ev = {'op': op, 'o': o, 'k': c.get('k', NOKEY), 'h': c.get('h', 0), 'pairs': c.get('pairs', []),
-              'ct': c.get('ct', NOKEY), 'd': c.get('d', NOKEY), 'r': bool(c.get('r', False)),
+              'ct': c.get('ct', NOCT), 'd': c.get('d', NOKEY), 'r': bool(c.get('r', False)),
               'res': 0, 'exc': 'none', 'map': [], 'via': ''}
         H = self.objs[o - 1]
         vo = o
@@ -414,6 +461,7 @@ class HRun:
             elif op == 'resolve':
                 ev['via'] = route if c['r'] else 'param_json'
                 ev['res'], ev['exc'] = self.resolve(o, c['ct'], c['d'], c['r'], route)
+                ev['spelled'] = self.spelled or ''
             else:
                 raise MachineryError('unknown op %r' % (op,))
         except (MachineryError, AssertionError):
@@ -469,7 +517,16 @@ def leg_m(ctx):
     if r.distinct != want:
         raise MachineryError('MC_MediaTypes explored %d states, expected %d (vacuity guard)' % (r.distinct, want))
     ctx.extra['mediatypes_exhaustive'] = {'ranges': nr, 'media_types': nt, 'headers': nr + nr * nr, 'states': r.distinct}
-    ctx.progress('leg M mediatypes done (%d states)' % r.distinct)
+    # q at every position among the parameters of a range (first / middle / last): the fold equals the documented
+    # rule, the position is irrelevant (QPositionIrrelevant); the design "q ends the media-type parameters" is refuted
+    rp = ctx.tlc('MC_MediaTypes', 'MC_MediaTypesP.cfg', timeout=600, workers=6)
+    if rp.distinct != 1 + (48 + 48 * 48) * (1 + 6):
+        raise MachineryError('MC_MediaTypesP explored %d states (vacuity guard)' % rp.distinct)
+    rw = ctx.tlc('MC_MediaTypes', 'MC_MediaTypesWP.cfg', must_hold=False, count=False, timeout=600, workers=4)
+    if not rw.violated:
+        raise MachineryError('wrong-design switch QSplits=TRUE did not violate any invariant')
+    ctx.extra['q_position_exhaustive'] = {'ranges': 48, 'media_types': 6, 'states': rp.distinct, 'wrong_design_caught': rw.violated}
+    ctx.progress('leg M mediatypes done (%d + %d states)' % (r.distinct, rp.distinct))
     # C11b: all histories up to the depth bound
     rh = ctx.tlc('MC_Handlers', 'MC_HandlersD3.cfg', coverage=True, timeout=900, workers=8)
     ctx.require_coverage(rh, ['MSet', 'MSetDefault', 'MDel', 'MPop', 'MUpdate', 'MUpdateFail', 'MClear', 'MCopy', 'MResolve'])
@@ -483,20 +540,36 @@ def leg_m(ctx):
             if not rw.violated:
                 raise MachineryError('wrong-design switch %s did not violate any invariant' % cfg)
         ctx.extra['wrong_design_switches_caught'] = 4
+        # the strict reading "ALWAYS the first registered key of highest quality" does not hold for the literal-key shortcut design:
+        # TLC must find the counterexample (documented model detail, see assumptions)
+        rs = ctx.tlc('MC_Handlers', 'MC_HandlersStrict.cfg', must_hold=False, count=False, timeout=600, workers=4)
+        ctx.extra['strict_first_registered_refuted_for_shortcut_design'] = bool(rs.violated)
+    # the wrong design "bare type/subtype key tried before the matching rule" must violate the invariants
+    r3 = ctx.tlc('MC_Handlers', 'MC_HandlersW3.cfg', must_hold=False, count=False, timeout=600, workers=4)
+    if not r3.violated:
+        raise MachineryError('wrong-design switch BareKeyShortcut=TRUE did not violate any invariant')
+    ctx.extra['bare_key_shortcut_refuted_by'] = r3.violated
     ctx.progress('leg M handlers done')
 
 
-def leg_a_table(ctx):
+def q_inside(hdr):
+    """ranges of the header whose q is written before at least one other parameter"""
+    return sum(1 for r in hdr if r['q'] != -1 and r.get('qp', len(r['pm'])) < len(r['pm']))
+
+
+def leg_a_table(ctx, positions=False):
     q = ctx.quick
     rng = ctx.rng
-    r = ctx.tlc('MC_MediaTypes', 'MC_MediaTypesTabQ.cfg' if q else 'MC_MediaTypesTab.cfg', timeout=900, workers=4,
-                count=False)
+    cfg = 'MC_MediaTypesTabP.cfg' if positions else 'MC_MediaTypesTabQ.cfg' if q else 'MC_MediaTypesTab.cfg'
+    r = ctx.tlc('MC_MediaTypes', cfg, timeout=900, workers=4, count=False)
     allm = [j['allm'] for j in r.json if 'allm' in j]
     rows = {digest(j['hdr']): j for j in r.json if 'hdr' in j}
-    if not allm or len(rows) != ((92 + 92 * 92) if q else (218 + 218 * 218)):
-        raise MachineryError('decision table incomplete: %d rows' % len(rows))
+    if not allm or len(rows) != ((48 + 48 * 48) if positions else (92 + 92 * 92) if q else (218 + 218 * 218)):
+        raise MachineryError('decision table %s incomplete: %d rows' % (cfg, len(rows)))
     allm = allm[0]
     n = 0
+    if positions:
+        return leg_a_positions(ctx, rows, allm)
     for k, (key, row) in enumerate(rows.items()):
         hdr = row['hdr']
         header = render_header(hdr, rng)
@@ -513,6 +586,37 @@ def leg_a_table(ctx):
     ctx.extra['table_rows'] = len(rows)
     ctx.extra['table_cells'] = n
     ctx.progress('leg A table done: %d headers x %d types' % (len(rows), len(allm)))
+
+
+def leg_a_positions(ctx, rows, allm):
+    """every header of <= 2 ranges over the position vocabulary (q first / middle / last among 0-2 parameters) x every
+    candidate of one type that carries / lacks / differs in the parameters: quality, client_accepts per cell, best_match
+    and client_prefers over the whole candidate row (expected index = first maximal positive quality of TLC's row)"""
+    rng = ctx.rng
+    n = inside = 0
+    for k, (key, row) in enumerate(rows.items()):
+        hdr = row['hdr']
+        header = render_header(hdr, rng)
+        bad = is_malformed(hdr)
+        qi = q_inside(hdr)
+        req = make_request(header, 'wsgi' if k % 2 else 'asgi')
+        cstrs = [render_type(m, rng) for m in allm]
+        for i, m in enumerate(allm):
+            case = {'leg': 'A-positions', 'hdr': hdr, 'header': header, 'type': cstrs[i]}
+            ctx.case(case, nontrivial=qi > 0 and row['nm'][i] >= 1, key=('pos', key, i))
+            compare_outcome(ctx, 'quality', row['q'][i], call_quality(cstrs[i], header), case, bad)
+            compare_outcome(ctx, 'accepts', {'err': False, 'v': row['acc'][i]}, call_accepts(req, cstrs[i]), case, bad)
+            n += 1
+            inside += 1 if qi and row['nm'][i] >= 1 else 0
+        if len(set(cstrs)) == len(cstrs):
+            case = {'leg': 'A-positions', 'hdr': hdr, 'cands': allm, 'header': header, 'candidates': cstrs}
+            compare_outcome(ctx, 'best', row['best'], call_best(cstrs, header), case, bad)
+            compare_outcome(ctx, 'prefers', row['pref'], call_prefers(req, cstrs), case, bad)
+    ctx.traces_validated += n
+    ctx.extra['q_position_table'] = {'headers': len(rows), 'cells': n, 'cells_with_q_before_a_parameter_and_a_match': inside}
+    if inside < 1000:
+        raise MachineryError('position table exercises q inside the parameters only %d times' % inside)
+    ctx.progress('leg A positions done: %d headers x %d types (%d cells with q before a parameter)' % (len(rows), len(allm), inside))
 
 
 def leg_a_cases(ctx):
@@ -537,7 +641,7 @@ def leg_a_cases(ctx):
     ctx.progress('leg A cases done: %d' % len(cases))
 
 
-def judge_handler_event(ctx, ev, want_call, want_map, want_ds, case):
+def judge_handler_event(ctx, ev, want_call, want_map, want_ds, case, st=None):
     """leg A: compare one real call with what TLC's behaviour says (P/D split as in HandlersTrace)."""
     if ev['exc'] == 'other' or (ev['exc'] == 'raised') != (ev['op'] == 'updatefail'):
         ctx.violation('P:exc', case, '%s: exc=%s %s' % (ev['op'], ev['exc'], ev.get('info')))
@@ -550,6 +654,10 @@ def judge_handler_event(ctx, ev, want_call, want_map, want_ds, case):
             return False
         if (ev['res'] == 0) != (not ds) or (ev['exc'] == '415') != (ev['res'] == 0 and ev['r']):
             ctx.violation('P:415', case, 'resolve gave res=%d exc=%s; designated %s' % (ev['res'], ev['exc'], sorted(ds)))
+            return False
+        if st is not None and ev['res'] != 0 and not st['sc'] and ev['res'] != st['rule']:
+            ctx.violation('P:first', case, 'resolve(%r, default %s) gave handler %d; no key is literally equal, and the first registered key of '
+                          'highest quality carries handler %d' % (ev.get('spelled'), canon(ev['d']), ev['res'], st['rule']))
             return False
         if ev['res'] != want_call['res']:
             ctx.detail('D:which', case, 'resolve gave %d, model picks %d' % (ev['res'], want_call['res']))
@@ -572,10 +680,10 @@ def leg_a_handlers(ctx):
     r = ctx.tlc('MC_Handlers', 'MC_HandlersSim.cfg', simulate={'num': ctx.pick(80, 800)}, depth=11, seed=ctx.seed + 12,
                 workers=4, timeout=900, count=False)
     behs = {digest(j): j for j in r.json if 'ev' in j}
-    n = 0
+    n = informative = 0
     for bi, (key, b) in enumerate(list(behs.items())[:ctx.pick(5000, 40000)]):
         evs = b['ev']
-        run = HRun(evs[0]['maps'][0])
+        run = HRun(evs[0]['maps'][0], ctx.rng)
         mutated = False
         nontrivial = False
         routes = []
@@ -591,12 +699,17 @@ def leg_a_handlers(ctx):
             else:
                 mutated = True
             o = ev['res'] if c['op'] == 'copy' else c['o']
-            if not judge_handler_event(ctx, ev, call, norm_map(st['maps'][o - 1]), st['ds'], dict(case, step=si + 1, event=ev)):
+            if c['op'] == 'resolve' and not st['sc'] and len(st['ds']) >= 2:
+                informative += 1
+            if not judge_handler_event(ctx, ev, call, norm_map(st['maps'][o - 1]), st['ds'], dict(case, step=si + 1, event=ev), st):
                 break
         ctx.case(case, nontrivial=nontrivial, key=key)
         n += 1
     ctx.traces_validated += n
     ctx.extra['simulated_handler_histories'] = n
+    ctx.extra['simulated_resolutions_only_first_of_best_decides'] = informative
+    if informative < 50:
+        raise MachineryError('simulated handler histories hold only %d resolutions where several keys tie (vacuity guard)' % informative)
     ctx.progress('leg A handlers done: %d histories' % n)
 
 
@@ -623,7 +736,8 @@ def rand_range(rng):
     q = -1 if u < 0.3 else -2 if u < 0.34 else 0 if u < 0.45 else QONE if u < 0.52 else 500000 if u < 0.58 else \
         1000 * rng.randrange(1, 1000) if u < 0.75 else \
         rng.choice((100, 400, 490, 499, 500, 1000, 500100, 500400, 999900, 999999, 1, 123456)) if u < 0.9 else rng.randrange(1, QONE)
-    return {'t': t, 's': s, 'pm': rand_pm(rng), 'q': q}
+    pm = rand_pm(rng)
+    return {'t': t, 's': s, 'pm': pm, 'q': q, 'qp': len(pm) if q == -1 else rng.randint(0, len(pm))}
 
 
 def rand_type(rng):
@@ -701,6 +815,14 @@ BKEYS = None
 # ---------------------------------------------------------------------------------------------
 # error rendering after in-place edits of resp_options.media_handlers (HandlersError.tla)
 # ---------------------------------------------------------------------------------------------
+CS = {'n': 'charset', 'v': 'utf-8'}
+# application/json, application/xml, text/xml, then what an app may register: a type of its own, keys that only MATCH the
+# predefined types (charset parameter, application/*, */*)
+EKEYS = [{'t': 'a', 's': 'x', 'pm': []}, {'t': 'a', 's': 'm', 'pm': []}, {'t': 'b', 's': 'm', 'pm': []}, {'t': 'a', 's': 'y', 'pm': []},
+         {'t': 'a', 's': 'm', 'pm': [CS]}, {'t': 'a', 's': 'x', 'pm': [CS]}, {'t': 'a', 's': '*', 'pm': []}, {'t': '*', 's': '*', 'pm': []},
+         {'t': 'c', 's': 'z', 'pm': []}, {'t': 'a', 's': 'y', 'pm': [{'n': 'p', 'v': '1'}]}]
+
+
 class ERun(HRun):
     """One app per stack whose resp_options.media_handlers is ONE Handlers object configured at start-up and
     edited in place afterwards; a route that raises an HTTPError, rendered by the default error serializer."""
@@ -722,7 +844,7 @@ class ERun(HRun):
         self.eapps['asgi'].add_route('/e', ARes())
         for app in self.eapps.values():
             app.resp_options.media_handlers = self.objs[0]
-        for m in ({'t': 'a', 's': 'x', 'pm': []}, {'t': 'a', 's': 'm', 'pm': []}, {'t': 'b', 's': 'm', 'pm': []}):
+        for m in EKEYS:
             self.key(m)
 
     def error(self, hdr, xml, stack, rng):
@@ -752,7 +874,7 @@ class ERun(HRun):
                 'content_type': cth}
 
 
-def judge_error_event(ctx, ev, want, case):
+def judge_error_event(ctx, ev, want, case, adm=None):
     """leg A: one rendered error against TLC's outcome [ct, enc] (clauses of HandlersErrorTrace)"""
     if ev['status'] != 400:
         return ctx.violation('P:status', case, 'error reached the client as %s' % ev['status'])
@@ -760,7 +882,7 @@ def judge_error_event(ctx, ev, want, case):
     if not none and ev['ct'] != norm_type(want['ct']):
         return ctx.violation('P:offered', case, 'Accept %r: Content-Type %r, the mapping at that time offers %s'
                              % (ev['header'], ev['content_type'], canon(want['ct'])))
-    if ev['enc'] != want['enc']:
+    if (ev['enc'] not in adm) if adm is not None else (ev['enc'] != want['enc']):
         return ctx.violation('P:offered' if none else 'P:encoder', case, 'Accept %r -> Content-Type %r with body %r (encoder %s); expected encoder %s '
                              '(>0 handler id, 0 none, -1 built-in XML, -2 framework JSON)' % (ev['header'], ev['content_type'], ev['body'], ev['enc'], want['enc']))
     return False
@@ -779,12 +901,15 @@ def leg_errors(ctx):
     rw = ctx.tlc('MC_HandlersError', 'MC_HandlersErrorW.cfg', must_hold=False, count=False, timeout=600, workers=4)
     if not rw.violated:
         raise MachineryError('wrong-design switch MemoiseOffered=TRUE did not violate OfferedFollowsMapping')
+    rx = ctx.tlc('MC_HandlersError', 'MC_HandlersErrorWX.cfg', must_hold=False, count=False, timeout=600, workers=4)
+    if not rx.violated:
+        raise MachineryError('wrong-design switch ExactLookup=TRUE did not violate TypeAndBodyAgree')
     ctx.progress('error-rendering leg M done')
     # ---- A: TLC-simulated histories on real apps
     ra = ctx.tlc('MC_HandlersError', 'MC_HandlersErrorSim.cfg', simulate={'num': ctx.pick(60, 600)}, depth=8, seed=ctx.seed + 13, workers=4,
                  timeout=900, count=False)
     behs = list({digest(j): j for j in ra.json if 'ev' in j}.values())[:ctx.pick(1200, 30000)]
-    n = 0
+    n = matched = 0
     for bi, b in enumerate(behs):
         evs = b['ev']
         run = ERun(evs[0]['map'])
@@ -798,7 +923,9 @@ def leg_errors(ctx):
                 ev = run.error(e['hdr'], e['xml'], stack, rng)
                 nontrivial = nontrivial or (seen_error and mutated_after)
                 seen_error = True
-                if judge_error_event(ctx, ev, e, dict(case, step=si + 1, event=ev)):
+                # (counted on the SPEC's outcome) the body is rendered by a handler whose key is not literally the chosen type
+                matched += 1 if (e['enc'] > 0 and norm_type(e['ct']) not in [x['k'] for x in norm_map(st['map'])]) else 0
+                if judge_error_event(ctx, ev, e, dict(case, step=si + 1, event=ev), st['adm']):
                     break
             else:
                 ev = run.apply(spec_call(call))
@@ -809,29 +936,41 @@ def leg_errors(ctx):
         ctx.case(case, nontrivial=nontrivial, key=('err', digest(evs), stack))
         n += 1
     ctx.traces_validated += n
-    ctx.progress('error-rendering leg A done: %d histories' % n)
+    ctx.extra['error_bodies_rendered_by_a_handler_under_a_non_literal_key'] = matched
+    if matched < 30:
+        raise MachineryError('only %d simulated errors were rendered through a key that matches without being equal (vacuity guard)' % matched)
+    ctx.progress('error-rendering leg A done: %d histories (%d bodies rendered through a merely matching key)' % (n, matched))
     # ---- B: directed + random histories, judged by TLC
     J, AX, TX, Y, Z = ({'t': 'a', 's': 'x', 'pm': []}, {'t': 'a', 's': 'm', 'pm': []}, {'t': 'b', 's': 'm', 'pm': []},
                        {'t': 'a', 's': 'y', 'pm': []}, {'t': 'c', 's': 'z', 'pm': []})
+    AXC, JC, AST, STAR = EKEYS[4:8]
+    VJ, VX = {'t': 'a', 's': 'w', 'pm': []}, {'t': 'c', 's': 'v', 'pm': []}
     keys = [J, AX, Y, Z, TX, {'t': 'a', 's': 'y', 'pm': [{'n': 'p', 'v': '1'}]}]
+    mkeys = [AXC, JC, AST, STAR, AXC]          # keys that serve a predefined type without being literally equal to it
 
     def R(t, q):
         return {'t': t['t'], 's': t['s'], 'pm': list(t['pm']), 'q': q}
     traces, cases = [], []
     for i in range(ctx.pick(300, 8000)):
         hid = itertools.count(11)
-        init = [{'k': rng.choice(keys[:3]), 'h': next(hid)} for _ in range(1)]
-        if rng.random() < 0.6 and init[0]['k'] != J:
+        matching = rng.random() < 0.5
+        init = [{'k': rng.choice(mkeys if matching else keys[:3]), 'h': next(hid)} for _ in range(1)]
+        if rng.random() < (0.3 if matching else 0.6) and init[0]['k'] != J:
             init.append({'k': J, 'h': next(hid)})
         run = ERun(init)
         stack = ('wsgi', 'asgi')[i % 2]
         xml = rng.random() < 0.5
         evs = []
-        pool = keys[:rng.choice((3, 4, 6))]
+        pool = keys[:rng.choice((3, 4, 6))] + (rng.sample(mkeys, 2) if matching else [])
 
         def accept():
             have = [e['k'] for e in run.view(1)]
             t = rng.choice(pool + have) if rng.random() < 0.8 else rng.choice(keys)
+            if matching and rng.random() < 0.6:
+                t = rng.choice((AX, TX, J, AX))
+            u = rng.random()
+            if u < 0.12:            # nothing offered is acceptable: the +json / +xml fall-back decides
+                return rng.choice(([R(VJ, -1)], [R(VX, -1)], [R(VX, 500000), R(Z, 0)], [R(VJ, -1), R(VX, -1)]))
             u = rng.random()
             if u < 0.45:
                 return [R(t, -1), R(J, rng.choice((100000, 500000, 100)))]
@@ -893,9 +1032,13 @@ def leg_b_handlers(ctx):
     keys = [{'t': 'a', 's': 'x', 'pm': []}, {'t': 'a', 's': 'x', 'pm': [P1]}, {'t': 'a', 's': '*', 'pm': []},
             {'t': 'b', 's': 'y', 'pm': []}, {'t': 'a', 's': 'w', 'pm': []}, {'t': '*', 's': '*', 'pm': []},
             {'t': 'b', 's': '*', 'pm': [R1]}, {'t': 'c', 's': 'z', 'pm': []}]
-    cts = keys[:5] + [{'t': 'a', 's': 'x', 'pm': [P2]}, {'t': 'a', 's': 'x', 'pm': [P1, R1]}, {'t': 'a', 's': 'y', 'pm': []},
-                      {'t': 'b', 's': 'y', 'pm': [R1]}, {'t': 'c', 's': 'x', 'pm': []}, {'t': 'e', 's': 'z', 'pm': []},
-                      {'t': '*', 's': '*', 'pm': []}, NOTYPE, NOTYPE]
+    mts = keys[:5] + [{'t': 'a', 's': 'x', 'pm': [P2]}, {'t': 'a', 's': 'x', 'pm': [P1, R1]}, {'t': 'a', 's': 'x', 'pm': [R1, P1]},
+                      {'t': 'a', 's': 'y', 'pm': []}, {'t': 'b', 's': 'y', 'pm': [R1]}, {'t': 'c', 's': 'x', 'pm': []},
+                      {'t': 'e', 's': 'z', 'pm': []}]
+    # content types as written: canonical, otherwise spelled, with q = 0 / a positive q at a random position
+    cts = [W(m) for m in mts] + [W(m, lit=False) for m in mts] + \
+          [W(m, q, rng.randint(0, len(m['pm']))) for m in mts[:8] for q in (0, 0, 500000)] + \
+          [W({'t': '*', 's': '*', 'pm': []}), NOTYPE, NOTYPE]
     defaults = [keys[0], keys[3], {'t': 'a', 's': 'y', 'pm': []}]
     ntraces = ctx.pick(250, 6000)
     traces, seen = [], set()
@@ -907,11 +1050,13 @@ def leg_b_handlers(ctx):
         def newh():
             return next(hid) + 10 if fresh else rng.choice(pool)
         init = [{'k': rng.choice(keys), 'h': newh()}]
-        run = HRun(init)
+        run = HRun(init, rng)
         evs = []
-        nkeys = keys[:rng.choice((3, 4, 5, 8))]
+        nkeys = keys[:rng.choice((2, 3, 4, 5, 8))] if rng.random() < 0.8 else [keys[0], keys[1], keys[5]]
         # few distinct (content type, default) pairs per history, so that resolutions repeat across mutations
         tcts = rng.sample(cts, rng.choice((1, 2, 2, 3, 5)))
+        if rng.random() < 0.5:      # a type the parameterised key serves without being literally equal to it
+            tcts.append(rng.choice((W(keys[1], lit=False), W(mts[6], lit=False), W(mts[7]), W(keys[1], 0, rng.randint(0, 1)))))
         tdefs = rng.sample(defaults, rng.choice((1, 1, 2)))
         mutated = nontrivial = False
         asked = []          # resolutions made so far: (call, route); re-asked right after mutations
@@ -933,7 +1078,7 @@ def leg_b_handlers(ctx):
                 r = rng.random() < 0.9
                 c = {'op': 'resolve', 'o': o, 'ct': rng.choice(tcts), 'd': rng.choice(tdefs), 'r': r}
                 if not r:
-                    c['ct'] = c['d'] = keys[0]
+                    c['ct'], c['d'] = W(keys[0]), keys[0]
                 nontrivial = nontrivial or mutated
             elif u < 0.60:
                 c = {'op': 'set', 'o': o, 'k': rng.choice(nkeys), 'h': newh()}
@@ -965,7 +1110,8 @@ def leg_b_handlers(ctx):
         if k not in seen:
             seen.add(k)
             traces.append(t)
-    verdicts = ctx.judge('HandlersTrace', traces, timeout=900, chunk=3000)
+    verdicts, counts = local_judge(ctx, 'HandlersTrace', traces)
+    ctx.extra['random_resolutions_only_first_of_best_decides'] = sum(counts)
     for t, v in zip(traces, verdicts):
         if v == 'ok':
             continue
@@ -996,15 +1142,21 @@ def run(ctx):
                        'is model detail (D), only the exception type is demanded (P)',
                        'which of several equally good mapping keys wins (exact key first, then first inserted) is model '
                        'detail (D); P demands a handler of the CURRENT mapping under a key of maximal positive quality',
+                       'when the content type is LITERALLY equal to a key the resolver returns that key\'s handler although an earlier registered '
+                       'key may match with the same quality (*/* or application/json; version=2 registered before application/json): the statement '
+                       'does not say which of equally good keys wins there, so this is model detail (Handlers!ShortcutApplies; TLC refutes the strict '
+                       'reading ShortcutIsRule for this design in the thorough tier); P:first applies wherever no key is literally equal',
+                       'content types reach the resolver as written: surrounding blanks only through Response.content_type (servers strip them from requests)',
                        'Handlers.__ior__ and copy() of an emptied mapping are excluded (not in the property)',
                        'a bulk update() that fails part-way (raising iterable, malformed pair) leaves its prefix in the mapping; '
                        'the mapping the object itself reports afterwards is the current mapping',
                        'error rendering: the default error serializer on one app per stack whose resp_options.media_handlers is edited in place '
-                       'between errors; Accept headers without +json/+xml suffixes (the suffix heuristic is C04 territory)',
+                       'between errors; the +json/+xml fall-back is modelled on subtypes (Accept parameters never contain "+")',
                        'resolutions are observed through Request.get_media, Response.render_body, get_param_as_json '
                        '(the only raise_not_found=False path reachable with arbitrary mappings) and whole requests']
     leg_m(ctx)
     leg_a_table(ctx)
+    leg_a_table(ctx, positions=True)
     leg_a_cases(ctx)
     leg_a_handlers(ctx)
     leg_b_negotiation(ctx)
